@@ -1086,7 +1086,7 @@ class SubElementProperty(_ElementBase):
 
     def get_py_value_from_node(self, instance: Any, node: xml_utils.LxmlElement) -> Any:  # noqa: ARG002
         """Read value from node."""
-        value = self._default_py_value
+        value = copy.deepcopy(self._default_py_value)
         try:
             sub_node = self._get_element_by_child_name(node, self._sub_element_name, create_missing_nodes=False)
             value_class = self.value_class.value_class_from_node(sub_node)
